@@ -85,7 +85,14 @@ def run(prog):
                 if manual_trace and not is_acyclic:
                     key = "%s:manual-trace" % fname
                     n_manual += 1
-                    if badr:
+                    # a hand-written `trace()` body is judged like a derived one: the field is fine when the body visits it
+                    vs = None
+                    for ty, v_ in visited.items():
+                        if ty == p or ty.startswith(p + "<"):
+                            vs = v_
+                    if badr and vs is not None and (None, f["name"]) in vs or badr and vs is not None and (v["name"], f["name"]) in vs:
+                        obs.append(ok(RULE, key, st, "hand-written Trace impl visits `%s` (which can own %s)" % (f["name"], badr)))
+                    elif badr:
                         obs.append(bad(RULE, key, st, "hand-written Trace impl for %s while field `%s` can own %s" % (short_path(p), f["name"], badr)))
                     else:
                         obs.append(ok(RULE, key, st, "hand-written Trace impl; field cannot reach a Cc"))
@@ -112,23 +119,29 @@ def run_interner(prog):
     for f, b, s in sorted(sites, key=lambda x: x[0].path):
         key = "%s:constructs(%s)" % (f.path, short_path(s[2][2]))
         d = strip(f.desc_op(s[2][4][0]))
-        from_clone = False
         op = s[2][4][0]
         cur = op[1][0] if op[0] in ("mv", "cp") and len(op[1]) == 1 else None
-        for _ in range(6):
-            if cur is None:
-                break
-            sd = f.single_def(cur)
-            if sd is None:
-                break
-            if sd[0] == "call":
-                c = sd[4].get("res") or sd[4].get("fn") or ""
-                from_clone = c.endswith("inner::Inner as core::clone::Clone>::clone")
-                break
-            if sd[0] == "s" and sd[4][0] == "use" and sd[4][1][0] in ("mv", "cp") and len(sd[4][1][1]) == 1:
-                cur = sd[4][1][1][0]
-                continue
-            break
+
+        def all_from_clone(l, depth=0):
+            """every assignment of the local (it may be assigned on several paths: `let k = match .. { a => x.clone(), b => y.clone() }`)
+            is the result of Inner::clone, directly or through plain moves"""
+            ds = f.defs.get(l, [])
+            if not ds or depth > 6:
+                return False
+            for df in ds:
+                if len(df[3]) != 1:
+                    return False
+                if df[0] == "call":
+                    c = df[4].get("res") or df[4].get("fn") or ""
+                    if not c.endswith("inner::Inner as core::clone::Clone>::clone"):
+                        return False
+                elif df[0] == "s" and df[4][0] == "use" and df[4][1][0] in ("mv", "cp") and len(df[4][1][1]) == 1:
+                    if not all_from_clone(df[4][1][1][0], depth + 1):
+                        return False
+                else:
+                    return False
+            return True
+        from_clone = cur is not None and all_from_clone(cur)
         if not f.path.startswith(I) and not f.path.startswith("<" + I):
             obs.append(bad(R, key, site(f, s[3]), "an interned handle is fabricated outside the interner crate"))
         elif from_clone:
